@@ -1578,7 +1578,91 @@ func merge(rng *hx.Rng, hs [][]string) []string {
 	}
 }
 
+// genBulk: two instances and 30-90 keys — instance 0 inserts all of them, commits, is reopened, deletes about half and
+// overwrites some, commits, is reopened and reads everything back; instance 1 receives the final contents directly, in
+// another order: one root class.  (Sizes beyond the handful of keys of the other sessions: deeper tries, more raw keys.)
+func genBulk(rng *hx.Rng) []string {
+	n := rng.Range(30, 90)
+	seen := map[string]bool{}
+	var keys []string
+	for len(keys) < n {
+		k := fmt.Sprintf("%02x%02x%02x", rng.Intn(250), rng.Intn(256), rng.Intn(256))
+		if k[:2] == "ee" || k[:2] == "bd" || seen[k] {
+			continue
+		}
+		seen[k] = true
+		keys = append(keys, k)
+	}
+	letters := []string{"i", "p", "r", "l"}
+	fl := hx.Pick(rng, []string{"map", "mapa", "set"})
+	tok := fl
+	if rng.Bool() {
+		cd := hx.Pick(rng, letters) + hx.Pick(rng, letters)
+		if fl == "set" {
+			cd += "i"
+		} else {
+			cd += hx.Pick(rng, letters)
+		}
+		tok += ":" + cd
+	}
+	isSet := fl == "set"
+	val := func() string { return hx.Pick(rng, []string{"61", "62", "-", "0001020304050607"}) }
+	put := func(i int, k, v string) string {
+		if isSet {
+			return fmt.Sprintf("add %d %s", i, k)
+		}
+
+		return fmt.Sprintf("set %d %s %s", i, k, v)
+	}
+	ops := []string{"open 0 " + tok, "open 1 " + tok}
+	final := map[string]string{}
+	for _, k := range keys {
+		v := val()
+		final[k] = v
+		ops = append(ops, put(0, k, v))
+	}
+	ops = append(ops, "size 0", "root 0", "commit 0", "reopen 0", "size 0", "root 0")
+	order := append([]string(nil), keys...)
+	shuffle(rng, order)
+	for j, k := range order {
+		switch {
+		case j%2 == 0:
+			ops = append(ops, fmt.Sprintf("del 0 %s", k))
+			delete(final, k)
+		case j%5 == 1 && !isSet:
+			v := val()
+			final[k] = v
+			ops = append(ops, put(0, k, v))
+		}
+		if j == len(order)/2 {
+			ops = append(ops, "commit 0", "reopen 0")
+		}
+	}
+	ops = append(ops, "size 0", "commit 0", "reopen 0", "size 0", "stream 0 0", "root 0")
+	rest := make([]string, 0, len(final))
+	for k := range final {
+		rest = append(rest, k)
+	}
+	sort.Strings(rest)
+	shuffle(rng, rest)
+	for _, k := range rest {
+		ops = append(ops, put(1, k, final[k]))
+	}
+	ops = append(ops, "root 1", "size 1", "peek 1")
+	for _, k := range order {
+		ops = append(ops, fmt.Sprintf("has 0 %s", k))
+		if !isSet && rng.Chance(1, 3) {
+			ops = append(ops, fmt.Sprintf("get 0 %s", k))
+		}
+	}
+
+	return append(ops, "peek 0")
+}
+
 func genSession(rng *hx.Rng, clusters []mine.Cluster, nOps int) []string {
+	if rng.Chance(1, 40) {
+		return genBulk(rng)
+	}
 	c := hx.Pick(rng, clusters)
 	g := &gen{rng: rng}
 	// key alphabet: the long-prefix core, some nearer and farther relatives, strangers, odd lengths
@@ -1840,6 +1924,22 @@ func emitCase(r *hx.Run, sub uint64, ops []string) {
 		r.Count("ans:" + strings.Fields(ans)[0])
 	}
 	r.CountN("root-classes", len(ss.classes))
+	maxKeys := 0
+	for _, in := range ss.insts {
+		if len(in.want) > maxKeys {
+			maxKeys = len(in.want)
+		}
+	}
+	switch {
+	case maxKeys >= 30:
+		r.Count("session:final-keys>=30")
+	case maxKeys >= 10:
+		r.Count("session:final-keys-10..29")
+	case maxKeys >= 4:
+		r.Count("session:final-keys-4..9")
+	default:
+		r.Count("session:final-keys<4")
+	}
 	if ss.sameClassOtherHistory && len(ss.classes) >= 2 && ss.mutations >= 5 {
 		h := sha256.Sum256([]byte(strings.Join(ops, "\n")))
 		r.Nontrivial(string(h[:8]))
